@@ -930,6 +930,76 @@ func (fc *FuncCtx) coerce(tv TV, t types.Type) TV {
 	return tv
 }
 
+// counterPhi: the phi of loop head b that counts the completed iterations: the hidden index of a range loop
+// (iteration count = phi + 1) or a variable started at the constant 0 outside the loop and advanced by
+// exactly 1 on every back edge (`for i := 0; ...; i++`: iteration count = phi). isRange tells which.
+func counterPhi(b *ssa.BasicBlock, inLoop func(*ssa.BasicBlock) bool) (cp *ssa.Phi, isRange bool) {
+	var cand *ssa.Phi
+	n := 0
+	for _, in := range b.Instrs {
+		phi, ok := in.(*ssa.Phi)
+		if !ok {
+			break
+		}
+		if phi.Comment == "rangeindex" {
+			return phi, true
+		}
+		good := len(phi.Edges) >= 2
+		for i, e := range phi.Edges {
+			if inLoop(b.Preds[i]) {
+				bo, isBin := e.(*ssa.BinOp)
+				if !isBin || bo.Op != token.ADD {
+					good = false
+					break
+				}
+				c, isC := bo.Y.(*ssa.Const)
+				if !(bo.X == ssa.Value(phi) && isC && c.Value != nil && c.Value.ExactString() == "1") {
+					good = false
+					break
+				}
+			} else {
+				c, isC := e.(*ssa.Const)
+				if !isC || c.Value == nil || c.Value.ExactString() != "0" {
+					good = false
+					break
+				}
+			}
+		}
+		if good {
+			cand = phi
+			n++
+		}
+	}
+	if n == 1 {
+		return cand, false
+	}
+	return nil, false
+}
+
+// rangeIndexName: the source name of the index variable of a range loop (`for i := range x`): go/ssa names
+// the increment of the hidden index by it inside the body.
+func rangeIndexName(li *loopInfo, phi *ssa.Phi) string {
+	var inc ssa.Value
+	for _, in := range li.head.Instrs {
+		if bo, ok := in.(*ssa.BinOp); ok && bo.X == ssa.Value(phi) && bo.Op == token.ADD {
+			inc = bo
+		}
+	}
+	if inc == nil {
+		return ""
+	}
+	for blk := range li.body {
+		for _, in := range blk.Instrs {
+			if d, ok := in.(*ssa.DebugRef); ok && d.X == inc && !d.IsAddr {
+				if obj := d.Object(); obj != nil {
+					return obj.Name()
+				}
+			}
+		}
+	}
+	return ""
+}
+
 func (fc *FuncCtx) loopNames(li *loopInfo, phiVal func(*ssa.Phi) TV) map[string]TV {
 	// names visible at the loop head: phi comments -> phi values; other variables
 	// through debug refs dominating the head.
@@ -952,6 +1022,14 @@ func (fc *FuncCtx) loopNames(li *loopInfo, phiVal func(*ssa.Phi) TV) map[string]
 		}
 		if phi.Comment != "" {
 			vars[phi.Comment] = phiVal(phi)
+		}
+	}
+	// the index variable of a range loop, at the loop head, is the number of elements done so far
+	if cp, isRange := counterPhi(h, func(p *ssa.BasicBlock) bool { return li.body[p] }); cp != nil && isRange {
+		if n := rangeIndexName(li, cp); n != "" {
+			if _, taken := vars[n]; !taken {
+				vars[n] = TV{T: "(+ " + phiVal(cp).T + " 1)", S: "Int", G: cp.Type()}
+			}
 		}
 	}
 	return vars
@@ -1098,12 +1176,14 @@ func (fc *FuncCtx) enterLoop(li *loopInfo, b *ssa.BasicBlock, pre *State, reach 
 		lc = &LoopContract{}
 	}
 	iterOf := func(get func(*ssa.Phi) TV) string {
-		for _, in := range b.Instrs {
-			if phi, ok := in.(*ssa.Phi); ok && phi.Comment == "rangeindex" {
-				return "(+ " + get(phi).T + " 1)"
-			}
+		cp, isRange := counterPhi(b, func(p *ssa.BasicBlock) bool { return li.body[p] })
+		if cp == nil {
+			return ""
 		}
-		return ""
+		if isRange {
+			return "(+ " + get(cp).T + " 1)"
+		}
+		return get(cp).T
 	}
 	// implicit invariant of range-over-string loops: the iterator position is >= 0
 	var strIters []ssa.Value
@@ -1192,6 +1272,10 @@ func (fc *FuncCtx) enterLoop(li *loopInfo, b *ssa.BasicBlock, pre *State, reach 
 		}
 	}
 	headPhi := func(phi *ssa.Phi) TV { return fc.val[phi] }
+	if cp, isRange := counterPhi(b, func(p *ssa.BasicBlock) bool { return li.body[p] }); cp != nil && !isRange {
+		// a counter started at 0 and advanced by 1 only is never negative (machine overflow aside)
+		q.assume("(<= 0 " + fc.val[cp].T + ")")
+	}
 	for _, in := range b.Instrs {
 		if phi, ok := in.(*ssa.Phi); ok && phi.Comment == "rangeindex" {
 			q.assume("(<= (- 1) " + fc.val[phi].T + ")")
@@ -1303,9 +1387,11 @@ func (fc *FuncCtx) backEdge(li *loopInfo, p *ssa.BasicBlock, ec string, st *Stat
 	}
 	backPhi := func(phi *ssa.Phi) TV { return fc.coerce(fc.v(phi.Edges[idx]), phi.Type()) }
 	env := fc.envFor(st, fc.loopNames(li, backPhi))
-	for _, in := range b.Instrs {
-		if phi, ok := in.(*ssa.Phi); ok && phi.Comment == "rangeindex" {
-			env.iter = "(+ " + backPhi(phi).T + " 1)"
+	if cp, isRange := counterPhi(b, func(p *ssa.BasicBlock) bool { return li.body[p] }); cp != nil {
+		if isRange {
+			env.iter = "(+ " + backPhi(cp).T + " 1)"
+		} else {
+			env.iter = backPhi(cp).T
 		}
 	}
 	suffix := ""
@@ -1354,8 +1440,8 @@ func (fc *FuncCtx) backEdge(li *loopInfo, p *ssa.BasicBlock, ec string, st *Stat
 		fc.eng.warn("%s %s: termination not claimed (decreases _)", fc.fnName, label)
 	default:
 		// rangeindex loops over a slice terminate by construction (bounded index); others need a measure
-		if fc.isRangeIndexLoop(li) || fc.isRangeIterHead(li) {
-			return // range loops over slices, strings and maps terminate by construction
+		if fc.isRangeIndexLoop(li) || fc.isRangeIterHead(li) || fc.isCountedUpLoop(li) {
+			return // range loops over slices, strings and maps, and `for i := 0; i < n; i++` with a fixed n, terminate by construction
 		}
 		fc.oblige(label+"/variant", "missing"+suffix, ec, "false", "loop has no decreases clause: termination not shown", nil)
 	}
@@ -1375,6 +1461,58 @@ func rangeBound(b *ssa.BasicBlock, phi *ssa.Phi) ssa.Value {
 		}
 	}
 	return nil
+}
+
+// isCountedUpLoop: `for i := 0; i < L; i++` where i is advanced by exactly 1 on every back edge and by nothing
+// else, the loop is left when !(i < L), and L cannot change while the loop runs: it is defined outside the
+// loop, or it is len(x) of a slice / string / map value x defined outside the loop (an SSA value is immutable;
+// for a map, len may change, so maps are excluded).
+func (fc *FuncCtx) isCountedUpLoop(li *loopInfo) bool {
+	h := li.head
+	cp, isRange := counterPhi(h, func(p *ssa.BasicBlock) bool { return li.body[p] })
+	if cp == nil || isRange {
+		return false
+	}
+	iff, ok := h.Instrs[len(h.Instrs)-1].(*ssa.If)
+	if !ok {
+		return false
+	}
+	cond, ok := iff.Cond.(*ssa.BinOp)
+	if !ok || cond.Op != token.LSS || cond.X != ssa.Value(cp) {
+		return false
+	}
+	// the true branch stays in the loop, the false branch leaves it
+	if !li.body[h.Succs[0]] || li.body[h.Succs[1]] {
+		return false
+	}
+	var outside func(v ssa.Value) bool
+	outside = func(v ssa.Value) bool {
+		switch x := v.(type) {
+		case *ssa.Const, *ssa.Parameter, *ssa.FreeVar:
+			return true
+		case *ssa.Field:
+			// a field of a struct VALUE (not through a pointer) that is itself fixed
+			return !li.body[x.Block()] || outside(x.X)
+		case *ssa.Extract:
+			return !li.body[x.Block()] || outside(x.Tuple)
+		case ssa.Instruction:
+			return !li.body[x.Block()]
+		}
+		return false
+	}
+	L := cond.Y
+	if outside(L) {
+		return true
+	}
+	if call, ok := L.(*ssa.Call); ok {
+		if bi, ok := call.Call.Value.(*ssa.Builtin); ok && bi.Name() == "len" && len(call.Call.Args) == 1 {
+			switch call.Call.Args[0].Type().Underlying().(type) {
+			case *types.Slice, *types.Basic, *types.Array:
+				return outside(call.Call.Args[0])
+			}
+		}
+	}
+	return false
 }
 
 // isRangeIterHead: the loop is `for ... := range <string or map>` (its head block is the Next).
